@@ -289,6 +289,57 @@ func pnftAuthRules(p *Prog, r *Report, clause string) {
 			}
 		}
 	}
+	// D3b: the keeper's own mutating API (every keeper function from which an x/nft mutator or a raw store write is reached within
+	// the keeper package) is driven only by message handlers, by other keeper functions and by the module's genesis import —
+	// not by migrations, upgrade handlers, hooks of other modules or ante decorators (none of which checks the actor).
+	mutating := map[*ssa.Function]bool{}
+	for f, us := range uses {
+		_ = f
+		for _, u := range us {
+			if InPkgs(u.In, "x/pnft/keeper") {
+				mutating[u.In] = true
+			}
+		}
+	}
+	for _, so := range p.StoreOps() {
+		if (so.Op == "Set" || so.Op == "Delete") && InPkgs(so.Fn, "x/pnft/keeper") {
+			mutating[so.Fn] = true
+		}
+	}
+	for changed := true; changed; {
+		changed = false
+		for _, fn := range p.ModFuncs {
+			if !InPkgs(fn, "x/pnft/keeper") || mutating[fn] || p.IsGenerated(fn) {
+				continue
+			}
+			for _, cs := range callSites(fn) {
+				if cs.Callee != nil && mutating[resolveBound(cs.Callee)] {
+					mutating[fn] = true
+					changed = true
+				}
+			}
+		}
+	}
+	nMutAPI := 0
+	byName := map[string]*ssa.Function{}
+	for fn := range mutating {
+		byName[FuncName(fn)] = fn
+	}
+	for _, fn := range sortedFuncs(byName) {
+		nMutAPI++
+		callers, us := p.CallersOf(fn)
+		_ = us
+		for _, c := range callers {
+			ok := InPkgs(c, "x/pnft/keeper") && !strings.Contains(strings.ToLower(c.Name()), "migrat") && !strings.Contains(strings.ToLower(FuncName(c)), "migrator") ||
+				pkgPathOf(c) == Rel("x/pnft") && (c.Name() == "InitGenesis" || strings.HasPrefix(c.Name(), "Import") || strings.HasPrefix(c.Name(), "import")) ||
+				InPkgs(c, "types/testsuite")
+			if !ok {
+				r.Fail(kp("WMC", "pnft-mutator:"+FuncName(fn)+"<-"+FuncName(c)), "the pnft keeper's mutating functions are driven only by message handlers, keeper functions and the genesis import", p.FnPos(c),
+					FuncName(c)+" calls "+FuncName(fn)+", which changes denoms/tokens/owners, outside any message handler: no owner signed for it")
+			}
+		}
+	}
+	r.Floor("pnft-keeper-mutating-functions", nMutAPI, 6)
 	r.Check(cnt["Update"] == 0 && cnt["BatchUpdate"] == 0, kp("WMC", "nft.Update#expected=0"), "nothing in the module rewrites a minted token's data (x/nft Update has no call site; control: Mint has one)", "x/pnft/keeper",
 		fmt.Sprintf("call sites: %v", cnt), fmt.Sprintf("x/nft Update is called: %v", cnt))
 	r.Floor("nft.Mint-call-sites(control)", cnt["Mint"], 1)
